@@ -768,7 +768,7 @@ func (a *aggregate) add(r *Result) {
 	}
 	a.evaluations++
 	if r.Inconclusive != "" {
-		a.inconclusive = append(a.inconclusive, r.Inconclusive)
+		a.inconclusive = append(a.inconclusive, fmt.Sprintf("[job seed=%d index=%d] %s", r.Seed, r.Index, r.Inconclusive))
 		return
 	}
 	a.sessions += r.Sessions
